@@ -124,6 +124,19 @@ func C21(run *Run) {
 	if viol == "" {
 		run.Note("CycleGroup_bad.cfg no longer violates Termination: the design model and KF-6 disagree")
 	}
+	// the failure path of the protocol: a handler that fails still releases its message (CycFail)
+	if viol, st := designModel(run, "CycleGroup_2fail.cfg"); viol != "" {
+		run.Violation(map[string]any{"prop": "C21", "class": "DESIGN_MODEL_VIOLATION", "cfg": "CycleGroup_2fail.cfg", "violated": viol}, "CycleGroup.tla violates "+viol+" under CycleGroup_2fail.cfg")
+	} else {
+		run.Coverage["tlc:CycleGroup_2fail.cfg"] = st + ", exhaustive, no violation"
+	}
+	if viol, st := designModel(run, "CycleGroup_2faillost.cfg"); viol == "" {
+		run.Inconclusive("CycleGroup_2faillost.cfg (a failing handler that keeps its in-flight unit) no longer violates Termination: the failure-path check would be vacuous")
+	} else {
+		run.Coverage["tlc:CycleGroup_2faillost.cfg"] = st + ", violated as intended: " + viol
+	}
+	// ... and on the real pipeline, before the hook tracer is installed (these runs are judged by outcome)
+	panicEvents := pipelinePanicScenario(run)
 	// ---- conformance: event traces of the real pipeline
 	tr := &plTracer{jitter: rand.New(rand.NewSource(run.Seed + 5))}
 	verifhook.InstallTracer(tr)
@@ -258,6 +271,10 @@ func C21(run *Run) {
 		run.Inconclusive("no pipeline trace recorded (hooks not compiled in?)")
 	}
 	run.AddSample(lines[:min(len(lines), 12)])
+	for _, e := range panicEvents {
+		cuts[len(lines)] = true
+		lines = append(lines, e)
+	}
 	sum, err := ValidateTrace(PipelineSpecDirs(), "PipelineTrace", lines, 8, func(i int) bool { return cuts[i] }, 20*time.Minute)
 	if err != nil {
 		run.Inconclusive("PipelineTrace validation failed: %v", err)
